@@ -11,9 +11,10 @@ GEN_MODULES = ['Ident', 'Classes', 'Layouts']
 MODEL_TARGETS = ['coq/LibBuild/Run.vo']
 PROOF_TARGETS = ['coq/LibBuild/Proofs.vo', 'coq/LibBuild/Order.vo', 'coq/LibBuild/Tags.vo', 'coq/LibBuild/Counts.vo', 'coq/LibBuild/Chain.vo',
                  'coq/LibBuild/Layouts.vo', 'coq/LibBuild/Cert.vo', 'coq/LibBuild/StimBridgeProofs.vo', 'coq/LibBuild/StimBridgeCycles.vo', 'coq/LibBuild/StimBridgeLayouts.vo',
-                 'coq/LibBuild/MultiRoundProofs.vo', 'coq/LibBuild/MultiRoundOrder.vo', 'coq/LibBuild/MultiRoundInst.vo', 'coq/LibBuild/MultiRoundDefined.vo']
+                 'coq/LibBuild/MultiRoundProofs.vo', 'coq/LibBuild/MultiRoundOrder.vo', 'coq/LibBuild/MultiRoundInst.vo', 'coq/LibBuild/MultiRoundDefined.vo',
+                 'coq/LibBuild/CertCyclesProofs.vo', 'coq/LibBuild/CertCyclesChain4.vo', 'coq/LibBuild/CertCyclesLayouts.vo']
 PROPS_FILE = 'coq/Props/LIBBUILD.v'
-EXTRA_PROPS = ['coq/Props/LIBBUILD_stim.v', 'coq/Props/LIBBUILD_stim_layouts.v', 'coq/Props/LIBBUILD_multi.v', 'coq/Props/LIBBUILD_multi_total.v']     # constructor program -> Core listing -> C08 exporter model = C09's rep_stim
+EXTRA_PROPS = ['coq/Props/LIBBUILD_stim.v', 'coq/Props/LIBBUILD_stim_layouts.v', 'coq/Props/LIBBUILD_multi.v', 'coq/Props/LIBBUILD_multi_total.v', 'coq/Props/LIBBUILD_cert.v']     # constructor program -> Core listing -> C08 exporter model = C09's rep_stim
 RUN_MODULE = 'QCE.LibBuild.Run'
 COQ_HEADER = ('From Gen Require Import Ident Classes Layouts.\n'
               'From QCE Require Import Core.Model Core.Run Lib.Run C09.Model LibBuild.Model.')
